@@ -119,13 +119,14 @@ def check(run):
                 run.violation("the single-pair API raised on a bulk entry", case, index=i, got=s[1]); enc.append("?"); continue
             if s[0] == "invalid":
                 run.hit("entry.invalid")
-                if not (b[1] == "invalid color" and b[0] is it[0] or (b[1] == "invalid color" and b[0] == it[0])):
+                # NaN-safe comparison: the values crossed a process boundary, so `nan == nan` is false
+                if not (b[1] == "invalid color" and gc.canon(b[0]) == gc.canon(it[0])):
                     run.violation("an unparseable entry is not returned unchanged with a non-readability status", case, index=i, got=repr(b))
                 enc.append("orig " + "invalid color".encode().hex())
                 continue
             out, ok, rb, bgc, css = s
             run.hit("entry.%s" % ("hsl" if isinstance(out, str) and out.startswith("hsl(") else type(out).__name__))
-            if b[0] != out:
+            if gc.canon(b[0]) != gc.canon(out):
                 run.violation("bulk colour differs from ColorPair(...).make_readable for the same entry", case, index=i, got=repr(b[0]), single=repr(out))
             shown = css if css is not None else rb
             if shown is None:
